@@ -70,6 +70,7 @@ class Reporter:
         self.t0 = time.time()
         self.notes = []
         self.machinery_errors = []
+        rm(os.path.join(OUT, "replays", prop))
 
     def violation(self, kind, detail, **match_fields):
         """Report one violation. match_fields are the classification keys tested against
